@@ -6,29 +6,223 @@ import math
 import os
 from fractions import Fraction
 
-from common import CORPUS_DIR, call, frac, rat, unrat
+from common import CORPUS_DIR, InfraError, call, frac, rat, unrat
 
-RULE = ("plain intervals: end points and arguments on the dyadic grid k/16 (|k|<=4096) so float + - * and /2^j are exact, ops "
-        "mk/set_start/set_end/contains/containsI/overlaps/intersection/add/sub/mul/div/round/length/gt/lt with arguments at the "
-        "end points, just inside/outside, far away, int and float, scalars <0, =0, >0; a second stream of arbitrary doubles "
-        "(1e-300..1e300) goes through the oracle with relative tolerance 1e-12. angle intervals: lengths "
-        "{0, tiny, pi-eps, pi, pi+eps, 2pi-eps, random} at positions across +-pi and +-2pi (constructor arguments up to +-6pi), "
-        "angles at the end points +- 2pi k, inside, outside, int and float. distinct = distinct canonical JSON of the case; "
-        "non-trivial = the case hits an end point, a wrap-around, a long (>pi) interval, a non-positive scalar or an error branch")
+RULE = ("plain intervals: end points and arguments on the dyadic grid k/16 (|k|<=4096) so float + - * and /2^j are exact (in float32 too), "
+        "ops mk/set_start/set_end/contains/in/containsI/overlaps/intersection/add/sub/mul/div/round/length/gt/lt with arguments at the "
+        "end points, just inside/outside, far away, as int / float / numpy float64 float32 int64 int32, scalars <0, =0, -0.0, >0, Python "
+        "zero divisors; a second stream of arbitrary doubles (1e-300..1e300, denormals, DBL_MAX) goes through the oracle with relative "
+        "tolerance 1e-12. histories (kind prog / aprog): ONE object driven through 3-9 steps - setters after construction and after "
+        "queries, several in a row, same value / other bound handed back, crossing or out-of-range values (rejected) followed by further "
+        "steps, arithmetic / rounding / intersection results fed into the next step, copy / deepcopy / pickle / Interval(*i) copies then "
+        "queries, hash / == / str / iter in between; every earlier object is re-checked at the end. angle intervals: lengths {0, tiny, "
+        "pi-eps, pi, pi+eps, 2pi-eps, random}, positions across +-pi and +-2pi, bounds exactly at -2pi -pi 0 pi 2pi, constructor arguments "
+        "up to 300 turns away and at whole multiples of 2pi, int / numpy arguments; angles at the end points +- 2pi k (k to +-1000), "
+        "inside, outside, huge (1e5), int / float / numpy float64 int64 float32; contains(interval) in every relative position (before, "
+        "touching, inside, sticking out, gap, covering the gap, whole turns apart); make_valid_orientation(_interval) at multiples of 2pi "
+        "up to 450 turns. DIMENSIONS lists every member of both classes with its variation and is checked against the real classes on "
+        "every run. distinct = distinct canonical JSON of the case; non-trivial = the case hits an end point, a wrap-around, a long "
+        "(>pi) interval, a non-positive scalar, a history step or an error branch")
 ASSUMPTIONS = ["float rounding inside + - * / and math.fmod is modelled as exact rational arithmetic; the correspondence is exact on "
-               "the dyadic grid and uses a 1e-9 band elsewhere",
-               "angles within 1e-9 (mod 2pi) of an interval end point are 'ambiguous' for the oracle (the property is tolerance-guarded)"]
+               "the dyadic grid and uses a 1e-9 band elsewhere (1e-5 when a numpy float32 takes part: the library then computes in 24 bits)",
+               "angles within 1e-9 (mod 2pi) of an interval end point are 'ambiguous' for the oracle (the property is tolerance-guarded); "
+               "so are constructor arguments within 1e-9 of a whole multiple of 2pi for the CHOICE of representative (the denoted set is still judged) "
+               "and lengths within 1e-9 of 2pi for acceptance",
+               "not admissible, no verdict: zero divisors (Python zero: ZeroDivisionError is compared with the model; numpy zero gives inf/nan), "
+               "results beyond 1e+-300, NaN / inf, fixed-width numpy integers that overflow, Fraction / Decimal / bool scalars",
+               "mixed-class queries are outside the quantifier and not generated: Interval.contains(AngleInterval) (raises TypeError today), "
+               "AngleInterval.contains(plain Interval), `angle_interval in angle_interval` (AngleInterval.__contains__ is declared for numbers "
+               "only and raises TypeError for an interval; .contains(interval) is the entry point that is checked)",
+               "an AngleInterval setter that would make the length >= 2pi is not executed (the setters do not re-check the length; the object "
+               "then reports every angle as a member, C16_angle_long_all)"]
 EXTRA_MODULES = ['CRProps.T16']      # translator tie: Gen.Src (regenerated from /repo every run) = hand model
 REQUIRED_BUCKETS = ["plain/contains", "plain/mul-neg", "plain/div-neg", "plain/mk-reject", "plain/intersection-none",
                     "angle/long", "angle/int-arg", "angle/wrap", "angle/containsI", "angle/shift", "plain/arbitrary-floats",
-                    "angle/setter-then-query"]
+                    "angle/setter-then-query",
+                    # generator audit (dimension table)
+                    "dimensions/checked", "plain/numpy-operand", "plain/32bit-operand", "plain/int-operand", "plain/zero-length", "plain/div-zero",
+                    "plain/huge", "plain/in", "plain/inI",
+                    "prog/chain", "prog/model-trace", "prog/setter-ok", "prog/setter-rejected", "prog/several-setters", "prog/setter-after-query",
+                    "prog/setter-same-or-other-bound", "prog/op-after-failed-op", "prog/noise", "prog/32bit-operand",
+                    "prog/copy-copy", "prog/copy-deepcopy", "prog/copy-pickle", "prog/copy-ctor-from-iter", "prog/copy-ctor-from-props",
+                    "angle/bound-at-pi-or-2pi", "angle/ctor-many-turns", "angle/numpy-arg", "angle/float32", "angle/huge-theta", "angle/zero-length",
+                    "angle/a_rel", "angle/containsI-true", "angle/containsI-false", "angle/shift-many-turns",
+                    "aprog/setter-ok", "aprog/setter-rejected", "aprog/several-setters", "aprog/start-setter", "aprog/op-after-failed-op",
+                    "aprog/chain", "aprog/copy", "aprog/query", "aprog/model-trace",
+                    "norm/make_valid_orientation", "norm/make_valid_orientation_interval", "norm/many-turns"]
 
 BAND = Fraction(1, 10 ** 9)
+BAND32 = Fraction(1, 10 ** 5)        # cases in which a numpy float32 takes part (24-bit arithmetic inside the library)
+
+# ------------------------------------------------------------------------------------------------ typed numbers
+# A number in a case is a JSON int / float (Python int / float) or a string "<tag>:<value>" for a numpy scalar.
+_NP = {"f64": "float64", "f32": "float32", "i64": "int64", "i32": "int32"}
+
+
+def enc(v):
+    """Python / numpy scalar -> JSON-able case value."""
+    import numpy as np
+    for tag, name in _NP.items():
+        if type(v) is getattr(np, name):
+            return f"{tag}:{int(v)}" if tag[0] == "i" else f"{tag}:{float(v)!r}"
+    return v
+
+
+def val(v):
+    """Case value -> the Python / numpy scalar handed to the library."""
+    if isinstance(v, str):
+        import numpy as np
+        tag, _, txt = v.partition(":")
+        return getattr(np, _NP[tag])(int(txt) if tag[0] == "i" else float(txt))
+    if isinstance(v, list):
+        return [val(x) for x in v]
+    return v
+
+
+NUM_KEYS = ("a", "b", "c", "d", "x", "s", "e", "thetas")
+
+
+def dec(case):
+    """Shallow copy of a case with its numbers decoded."""
+    return {k: (val(v) if k in NUM_KEYS else v) for k, v in case.items()}
+
+
+def has32(case):
+    return any(t in json.dumps(case) for t in ('"f32:', '"i32:'))
+
+
+def retype(r, v, allow32=True, p=0.5):
+    """Give the number v another scalar type of the same value (int where integral, numpy 64/32-bit scalars)."""
+    import numpy as np
+    if isinstance(v, str) or r.random() >= p:
+        return v
+    f = float(v)
+    opts = ["float", "f64"]
+    if f.is_integer() and abs(f) < 2 ** 30:
+        opts += ["int", "i64"] + (["i32"] if allow32 else [])
+    if allow32 and float(np.float32(f)) == f:
+        opts.append("f32")
+    t = r.choice(opts)
+    if t == "float":
+        return f
+    if t == "int":
+        return int(f)
+    return enc(getattr(np, _NP[t])(int(f) if t[0] == "i" else f))
 
 
 def _tau():
     from commonroad import TWO_PI
     return TWO_PI
+
+
+# ------------------------------------------------------------------------------------------------ dimension table
+# Every constructor parameter, settable attribute and public operation of the anchored classes (and the two normalisation
+# functions) with how the generators vary it, or why it lies outside the property. `check_dimensions` compares the table with
+# the real classes on every run: a member / parameter / instance attribute the table does not know => exit 2.
+V, O = "varied", "outside"
+DIMENSIONS = {
+    # --- Interval
+    "Interval.__init__(start,end)": (V, "grid k/16 and arbitrary doubles 1e-300..1e300, int / float / numpy float64 float32 int64 int32, 0 and -0.0, "
+                                        "start == end, start > end (rejected); also reached through copies `Interval(*i)` / `Interval(i.start, i.end)`"),
+    "Interval.start[setter]": (V, "plain ops set_start and histories (kind prog): after construction, after queries, several in a row, the same value / "
+                                  "the other bound handed back, crossing values (rejected, then further steps on the object)"),
+    "Interval.end[setter]": (V, "as start"),
+    "Interval.length[ro]": (V, "query op `length`, also inside histories"),
+    "Interval.contains(other)": (V, "numbers of every scalar type at / next to the bounds and far away; Interval arguments in every relative position; "
+                                    "an AngleInterval argument to a plain Interval is a mixed-class query the property does not define (TypeError today): not generated"),
+    "Interval.__contains__(value)": (V, "every contains case is also asked through `in` (numbers and intervals)"),
+    "Interval.overlaps(interval)": (V, "every relative position incl. touching end points and zero-length intervals"),
+    "Interval.intersection(other)": (V, "as overlaps; result None / interval; result fed into further steps (history op inter)"),
+    "Interval.__add__(other)": (V, "int / float / numpy scalars; results fed into further operations"),
+    "Interval.__sub__(other)": (V, "as __add__"),
+    "Interval.__mul__(other)": (V, "scalars < 0, 0, -0.0, > 0 of every scalar type; chains"),
+    "Interval.__truediv__(other)": (V, "scalars of either sign (+-2^j on the grid, arbitrary doubles in the float stream); Python zero => "
+                                       "ZeroDivisionError (correspondence only, object must be untouched); numpy zero is not admissible (inf/nan)"),
+    "Interval.__round__(n)": (V, "n in None, 0, 1, 2, -1 on int / float / numpy bounds; inside chains"),
+    "Interval.__gt__(other)": (V, "number and interval operand (not named by the property: compared with the model and the order semantics)"),
+    "Interval.__lt__(other)": (V, "as __gt__"),
+    "Interval.__eq__(other)": (O, "equality is C12's subject; used as a read-only query in histories (self, copy, a number), must not disturb the object"),
+    "Interval.__hash__()": (O, "as __eq__; called between steps of histories"),
+    "Interval.__iter__()": (V, "copies `Interval(*i)` and read-only `tuple(i)` in histories"),
+    "Interval.__str__()": (O, "text output is not part of the property; called between steps of histories"),
+    "Interval<instance>": (V, "instance attributes {_start, _end}: objects are copied by copy / deepcopy / pickle and queried / mutated afterwards; "
+                              "the original is re-checked at the end of the history"),
+    # --- AngleInterval
+    "AngleInterval<_TOLERANCE>": (O, "private class constant: read and handed to the model as eps; angles within 1e-9 of an end point are ambiguous"),
+    "AngleInterval.__init__(start,end)": (V, "lengths 0, tiny, around pi, up to 2pi-1e-6, >= 2pi (rejected), start > end (rejected); positions across +-pi, "
+                                             "+-2pi, bounds exactly at -2pi -pi 0 pi 2pi, int arguments, numpy float64/int64/float32, up to 300 turns away, at "
+                                             "and next to whole multiples of 2pi"),
+    "AngleInterval.start[setter]": (V, "a_setter and histories (kind aprog): new length / same value / the other bound / absolute +-2pi, +-pi, ints / crossing "
+                                       "(rejected) / outside [-2pi,2pi] (rejected), several in a row, queries before and after; a setter that would make "
+                                       "the length >= 2pi leaves the property's quantifier and is not executed"),
+    "AngleInterval.end[setter]": (V, "as start"),
+    "AngleInterval.contains(other)": (V, "angles: end points +- 2pi k (k up to +-1000), inside, outside, gap middle, huge (1e5), int / float / numpy; "
+                                         "intervals: every relative position incl. wrap-around, gap, whole turns apart, zero length; a plain Interval "
+                                         "argument is a mixed-class query: not generated"),
+    "AngleInterval.__contains__(value)": (V, "every angle query is asked through both; an interval argument to `in` is outside its declared domain "
+                                             "(numbers only; raises TypeError today): not generated"),
+    "AngleInterval.intersect(other)": (O, "raises NotImplementedError by design; the property speaks of intersection of plain intervals only"),
+    "AngleInterval<inherited>": (O, "overlaps / intersection / * / / / round / < / > / length inherited from Interval are linear, not modular; the property "
+                                    "claims them for plain intervals only. __add__ / __sub__ (inherited, re-normalising through type(self)) ARE varied: "
+                                    "shifts by every scalar type up to 50 turns, chained in histories"),
+    "AngleInterval<instance>": (V, "instance attributes {_start, _end}: copy / deepcopy / pickle / AngleInterval(*i) then queries and setters"),
+    # --- module functions
+    "make_valid_orientation(angle)": (V, "whole multiples of 2pi, next to them, up to 450 turns, ints (correspondence with the model; tied by T16)"),
+    "make_valid_orientation_interval(angle_start,angle_end)": (V, "as above with lengths 0 .. 2pi-1e-6; oracle: same angles, inside [-2pi,2pi]"),
+    "<reflected operands>": (O, "__radd__ / __rsub__ / __rmul__ / __rtruediv__ are not defined (number op Interval raises TypeError by design); "
+                                "check_dimensions reports them if they appear"),
+}
+_IGNORED = {"__module__", "__doc__", "__dict__", "__weakref__", "__qualname__", "__annotations__", "__firstlineno__", "__static_attributes__",
+            "__annotate_func__", "__annotations_cache__"}
+
+
+def real_dimensions():
+    import inspect
+    from commonroad.common import util
+    from commonroad.common.util import AngleInterval, Interval
+    found = set()
+    for c in (Interval, AngleInterval):
+        for n, o in vars(c).items():
+            if n in _IGNORED or (n.startswith("_") and not n.startswith("__")):
+                continue                                     # private helpers / constants are not entry points (instance state is checked below)
+            if isinstance(o, property):
+                found.add(f"{c.__name__}.{n}[{'setter' if o.fset else 'ro'}]")
+            elif inspect.isfunction(o) or isinstance(o, (classmethod, staticmethod)):
+                f = o if inspect.isfunction(o) else o.__func__
+                found.add(f"{c.__name__}.{n}({','.join(list(inspect.signature(f).parameters)[1:])})")
+            else:
+                found.add(f"{c.__name__}.{n}")
+    problems = []
+    for c in (Interval, AngleInterval):
+        o = c(0, 1)
+        for what in NOISE:                                   # lazily created attributes (caches) show up after the read-only calls
+            _noise(o, what)
+        call(o.contains, 0.5), call(o.contains, c(0, 0.5)), call(lambda: (o.length, o + 1, o.overlaps(o), o.intersection(o)))
+        keys = set(vars(o).keys())
+        if keys != {"_start", "_end"}:
+            problems.append(f"{c.__name__} instances now carry attributes {sorted(keys)} (table: _start, _end)")
+    if AngleInterval.__mro__[1:] != (Interval, object):
+        problems.append(f"AngleInterval bases changed: {AngleInterval.__mro__}")
+    subs = sorted(n for n, o in vars(util).items() if inspect.isclass(o) and issubclass(o, Interval))
+    if subs != ["AngleInterval", "Interval"]:
+        problems.append(f"interval classes in util.py: {subs}")
+    for fn in ("make_valid_orientation", "make_valid_orientation_interval"):
+        f = getattr(util, fn, None)
+        found.add(f"{fn}({','.join(inspect.signature(f).parameters)})" if f else f"{fn}<missing>")
+    return found, problems
+
+
+def check_dimensions():
+    """The table must name exactly the members the real classes have."""
+    found, problems = real_dimensions()
+    pseudo = {k for k in DIMENSIONS if "<" in k}
+    unknown = sorted(found - set(DIMENSIONS))
+    stale = sorted(set(DIMENSIONS) - pseudo - found)
+    if unknown:
+        problems.append(f"members / signatures unknown to the C16 dimension table: {unknown}")
+    if stale:
+        problems.append(f"dimension table entries without a real member: {stale}")
+    return problems
 
 
 # ------------------------------------------------------------------------------------------------ plain intervals
@@ -45,24 +239,33 @@ def gen_plain(ctx):
     a, b = sorted([grid(r), grid(r)], key=float)
     if r.random() < 0.1:
         b = a
-    op = r.choice(["mk", "set_start", "set_end", "contains", "contains", "containsI", "overlaps", "intersection", "add", "sub",
+    op = r.choice(["mk", "set_start", "set_end", "contains", "contains", "in", "inI", "containsI", "overlaps", "intersection", "add", "sub",
                    "mul", "mul", "div", "div", "round", "length", "gt", "lt", "gtI", "ltI"])
     case = {"kind": "plain", "op": op, "a": a, "b": b}
     near = [a, b, a - 1 / 16, a + 1 / 16, b - 1 / 16, b + 1 / 16, (a + b) / 2, grid(r), int(a), int(b)]
     if op == "mk":
         if r.random() < 0.5:
             case["a"], case["b"] = (b, a) if a != b else (a + 1, a)
-    elif op in ("set_start", "set_end", "contains", "gt", "lt", "add", "sub"):
+    elif op in ("set_start", "set_end", "contains", "in", "gt", "lt", "add", "sub"):
         case["x"] = r.choice(near)
-    elif op in ("containsI", "overlaps", "intersection", "gtI", "ltI"):
+    elif op in ("containsI", "inI", "overlaps", "intersection", "gtI", "ltI"):
         c, d = sorted([r.choice(near), r.choice(near)], key=float)
         case["c"], case["d"] = c, d
     elif op == "mul":
         case["x"] = r.choice([0, 0.0, -1, -0.5, 2, 0.25, -3, grid(r, 64)])
     elif op == "div":
         case["x"] = r.choice([1, -1, 2, -2, 0.5, -0.5, 4.0, -8.0, 0.125, -0.0625])
+        if r.random() < 0.04:
+            case["x"] = r.choice([0, 0.0, -0.0])                # Python zero: ZeroDivisionError (numpy zeros: not admissible, inf/nan)
     elif op == "round":
-        case["n"] = r.choice([None, 0, 1, 2])
+        case["n"] = r.choice([None, 0, 1, 2, -1])
+    if r.random() < 0.3 and not (op == "div" and case["x"] == 0):
+        # the same values as other scalar types; every value of this grid and every result is exact in float32 as well,
+        # except decimal rounding (n > 0) of a float32
+        a32 = not (op == "round" and (case["n"] or 0) > 0)
+        for k in ("a", "b", "x", "c", "d"):
+            if k in case:
+                case[k] = retype(r, case[k], allow32=a32)
     return case
 
 
@@ -70,8 +273,13 @@ def gen_plain_float(ctx):
     """Arbitrary doubles (oracle only, relative tolerance)."""
     r = ctx.rng
 
+    big = r.random() < 0.25                      # huge / tiny magnitudes (results that over- or underflow are excluded)
+    e0 = r.randint(-300, 300) if big else r.randint(-30, 30)
+
     def f():
-        return r.choice([-1, 1]) * r.random() * 10.0 ** r.randint(-30, 30)
+        if big and r.random() < 0.1:
+            return r.choice([5e-324, -5e-324, 2.2250738585072014e-308, 1.7976931348623157e308, -1.7976931348623157e308, 0.0, -0.0])
+        return r.choice([-1, 1]) * r.random() * 10.0 ** (e0 + r.randint(-8, 8) if big else r.randint(-30, 30))
     a, b = sorted([f(), f()])
     op = r.choice(["contains", "overlaps", "intersection", "add", "sub", "mul", "div", "containsI"])
     case = {"kind": "plainf", "op": op, "a": a, "b": b}
@@ -88,6 +296,56 @@ def _iv(i):
     return None if i is None else [rat(i.start), rat(i.end)]
 
 
+def plain_apply(i, op, case):
+    """One operation of the real Interval object `i`; returns the canonical result (intervals as [start, end])."""
+    from commonroad.common.util import Interval
+
+    def other():
+        return Interval(case["c"], case["d"])
+    if op == "set_start":
+        i.start = case["x"]
+        return _iv(i)
+    if op == "set_end":
+        i.end = case["x"]
+        return _iv(i)
+    if op in ("contains", "in"):
+        v1 = i.contains(case["x"])
+        v2 = case["x"] in i
+        assert bool(v1) == bool(v2), "contains and __contains__ differ"
+        return bool(v1)
+    if op in ("containsI", "inI"):
+        o = other()
+        v1 = i.contains(o)
+        v2 = o in i
+        assert bool(v1) == bool(v2), "contains(interval) and `interval in` differ"
+        return bool(v1)
+    if op == "overlaps":
+        return bool(i.overlaps(other()))
+    if op == "intersection":
+        return _iv(i.intersection(other()))
+    if op == "add":
+        return _iv(i + case["x"])
+    if op == "sub":
+        return _iv(i - case["x"])
+    if op == "mul":
+        return _iv(i * case["x"])
+    if op == "div":
+        return _iv(i / case["x"])
+    if op == "round":
+        return _iv(round(i, case["n"]))
+    if op == "length":
+        return rat(i.length)
+    if op == "gt":
+        return bool(i > case["x"])
+    if op == "lt":
+        return bool(i < case["x"])
+    if op == "gtI":
+        return bool(i > other())
+    if op == "ltI":
+        return bool(i < other())
+    raise RuntimeError(op)
+
+
 def run_plain_impl(case):
     """Run the real Interval; returns canonical {'ok': ..} / {'err': cls}."""
     from commonroad.common.util import Interval
@@ -96,50 +354,7 @@ def run_plain_impl(case):
         r = call(Interval, case["a"], case["b"])
         return {"ok": _iv(r[1])} if r[0] == "ok" else {"err": r[1]}
     i = Interval(case["a"], case["b"])
-
-    def other():
-        return Interval(case["c"], case["d"])
-
-    def do():
-        if op == "set_start":
-            i.start = case["x"]
-            return _iv(i)
-        if op == "set_end":
-            i.end = case["x"]
-            return _iv(i)
-        if op == "contains":
-            v1 = i.contains(case["x"])
-            v2 = case["x"] in i
-            assert v1 == v2, "contains and __contains__ differ"
-            return bool(v1)
-        if op == "containsI":
-            return bool(i.contains(other()))
-        if op == "overlaps":
-            return bool(i.overlaps(other()))
-        if op == "intersection":
-            return _iv(i.intersection(other()))
-        if op == "add":
-            return _iv(i + case["x"])
-        if op == "sub":
-            return _iv(i - case["x"])
-        if op == "mul":
-            return _iv(i * case["x"])
-        if op == "div":
-            return _iv(i / case["x"])
-        if op == "round":
-            return _iv(round(i, case["n"]))
-        if op == "length":
-            return rat(i.length)
-        if op == "gt":
-            return bool(i > case["x"])
-        if op == "lt":
-            return bool(i < case["x"])
-        if op == "gtI":
-            return bool(i > other())
-        if op == "ltI":
-            return bool(i < other())
-        raise RuntimeError(op)
-    r = call(do)
+    r = call(plain_apply, i, op, case)
     return {"ok": r[1]} if r[0] == "ok" else {"err": r[1], "msg": r[2]}
 
 
@@ -156,13 +371,13 @@ def plain_oracle(case):
         return {"ok": pr(x, b)} if x <= b else {"err": "assert"}
     if op == "set_end":
         return {"ok": pr(a, x)} if a <= x else {"err": "assert"}
-    if op == "contains":
+    if op in ("contains", "in"):
         return {"ok": a <= x <= b}
-    if op == "containsI":
+    if op in ("containsI", "inI"):
         return {"ok": a <= c and d <= b}
     if op == "overlaps":
         return {"ok": max(a, c) <= min(b, d)}
-    if op == "intersection":
+    if op in ("intersection", "inter"):
         return {"ok": pr(max(a, c), min(b, d)) if max(a, c) <= min(b, d) else None}
     if op == "add":
         return {"ok": pr(a + x, b + x)}
@@ -171,8 +386,12 @@ def plain_oracle(case):
     if op == "mul":
         return {"ok": pr(min(a * x, b * x), max(a * x, b * x))}
     if op == "div":
+        if x == 0:
+            return {"err": "zero-div"}                       # not an admissible scalar: no verdict, correspondence only
         return {"ok": pr(min(a / x, b / x), max(a / x, b / x))}
     if op == "round":
+        if "exact_round" in case:                            # histories: own half-even decimal rounding of the exact value
+            return {"ok": pr(round_exact(a, case["n"]), round_exact(b, case["n"]))}
         ra, rb = frac(round(case["a"], case["n"])), frac(round(case["b"], case["n"]))
         return {"ok": pr(ra, rb)}
     if op == "length":
@@ -188,6 +407,14 @@ def plain_oracle(case):
     raise RuntimeError(op)
 
 
+def round_exact(v: Fraction, n):
+    """round(v, n) for an exactly known value: half-even at n decimals, then (n > 0) the nearest double."""
+    n = n or 0
+    q = round(v * Fraction(10) ** n)                          # Fraction.__round__: half to even
+    w = Fraction(q) / Fraction(10) ** n
+    return Fraction(*float(w).as_integer_ratio()) if n > 0 else w
+
+
 def close(u, v, rel=Fraction(1, 10 ** 12)):
     """Canonical results equal up to relative tolerance on rationals."""
     if isinstance(u, list) and isinstance(v, list) and len(u) == len(v):
@@ -201,10 +428,22 @@ def close(u, v, rel=Fraction(1, 10 ** 12)):
     return u == v
 
 
-def run_plain(ctx, case):
+FMAX, FMIN = Fraction(10) ** 300, Fraction(1, 10 ** 300)
+
+
+def run_plain(ctx, raw):
+    case = dec(raw)
     op = case["op"]
-    ctx.case(case)
+    ctx.case(raw)
     ctx.tag("plain/" + op)
+    if any(isinstance(raw.get(k), str) for k in ("a", "b", "c", "d", "x")):
+        ctx.tag("plain/numpy-operand")
+        if has32(raw):
+            ctx.tag("plain/32bit-operand")
+    if "x" in case and isinstance(case["x"], int) and not isinstance(case["x"], bool):
+        ctx.tag("plain/int-operand")
+    if frac(case["a"]) == frac(case["b"]):
+        ctx.tag("plain/zero-length")
     impl = run_plain_impl(case)
     impl_c = {k: v for k, v in impl.items() if k != "msg"}
     want = plain_oracle(case)
@@ -220,20 +459,32 @@ def run_plain(ctx, case):
         args = {k: (rat(v) if k in ("a", "b", "c", "d", "x") else v) for k, v in case.items() if k not in ("kind", "op", "n")}
         if op == "round":
             args["ra"], args["rb"] = rat(round(case["a"], case["n"])), rat(round(case["b"], case["n"]))
-        model = ctx.driver.ask("C16", op, args)
-        ctx.compare(case, impl_c, model, f"Interval.{op} vs CR.Iv")
+        model = ctx.driver.ask("C16", {"in": "contains", "inI": "containsI"}.get(op, op), args)
+        ctx.compare(raw, impl_c, model, f"Interval.{op} vs CR.Iv")
+        if op == "div" and frac(case["x"]) == 0:
+            ctx.tag("plain/div-zero")
+            ctx.excluded += 1                                 # dividing by zero is not admissible: no oracle verdict
+            return
         ok = impl_c == want
     else:
         ctx.tag("plain/arbitrary-floats")
+        if op in ("mul", "div", "add", "sub") and "ok" in want:
+            mags = [abs(unrat(q)) for q in want["ok"]]
+            if any(m != 0 and not (FMIN <= m <= FMAX) for m in mags):
+                ctx.tag("plain/overflow-excluded")
+                ctx.excluded += 1                             # the exact image is not representable as doubles
+                return
+        if max(abs(frac(case["a"])), abs(frac(case["b"]))) > Fraction(10) ** 100:
+            ctx.tag("plain/huge")
         ok = ("ok" in impl_c and "ok" in want and close(impl_c["ok"], want["ok"])) or impl_c == want
     if not ok:
         if "err" in impl_c and "err" not in want:
-            ctx.fail(f"C16/Interval.{op}/raises-{impl_c['err']}", f"Interval({case['a']},{case['b']}).{op} raised {impl.get('msg')}", case)
+            ctx.fail(f"C16/Interval.{op}/raises-{impl_c['err']}", f"Interval({case['a']!r},{case['b']!r}).{op} raised {impl.get('msg')}", raw)
         elif "err" in want:
-            ctx.fail(f"C16/Interval.{op}/not-rejected", f"Interval {op} with start > end was not rejected: {impl_c}", case)
+            ctx.fail(f"C16/Interval.{op}/not-rejected", f"Interval {op} with start > end was not rejected: {impl_c}", raw)
         else:
-            ctx.fail(f"C16/Interval.{op}/wrong-set", f"Interval({case['a']},{case['b']}).{op}({ {k: case[k] for k in case if k in 'xcdn'} }) = "
-                     f"{impl_c} but the set semantics give {want}", case)
+            ctx.fail(f"C16/Interval.{op}/wrong-set", f"Interval({case['a']!r},{case['b']!r}).{op}({ {k: case[k] for k in case if k in 'xcdn'} }) = "
+                     f"{impl_c} but the set semantics give {want}", raw)
 
 
 # ------------------------------------------------------------------------------------------------ angle intervals
@@ -241,25 +492,57 @@ def run_plain(ctx, case):
 def gen_angle(ctx):
     r = ctx.rng
     pi = math.pi
+    tau = _tau()
     length = r.choice([0.0, 1e-7, 0.3, 1.0, pi - 1e-6, pi, pi + 1e-6, 4.0, 5.5, 2 * pi - 1e-6, r.uniform(0, 2 * pi - 1e-9),
                        1, 2, 3, 4, 5, 6])
     start = r.choice([-pi, -pi + 0.2, pi - 0.2, -2 * pi + 0.1, 0.0, -0.1, r.uniform(-2 * pi, 2 * pi - float(length)),
                       r.uniform(-6 * pi, 6 * pi), -3, 0, 2, -6])
     if r.random() < 0.5 and not (-2 * pi <= start and start + length <= 2 * pi):
         start = r.uniform(-2 * pi, 2 * pi - float(length))
-    op = r.choice(["a_contains", "a_contains", "a_contains", "a_containsI", "a_add", "a_sub", "mk_angle", "a_setter"])
-    case = {"kind": "angle", "op": op, "s": start, "e": start + length}
+    end = start + length
+    u = r.random()
+    if u < 0.2:
+        # exact boundary positions: a bound exactly at -2pi, -pi, 0, pi, 2pi (float and int neighbours)
+        bnd = r.choice([-tau, -pi, 0.0, pi, tau, -6, 6, 0, -3, 3])
+        length = r.choice([0.0, 0, 1e-7, 0.5, 1, pi, 4.0, 6, tau - 1e-6])
+        start, end = (bnd, bnd + length) if r.random() < 0.5 else (bnd - length, bnd)
+    elif u < 0.3:
+        # constructor arguments many turns away, at and next to whole multiples of 2pi
+        k = r.choice([1, -1, 2, -2, 3, -3, 7, -10, 40, -40, 150, -300])
+        if r.random() < 0.4:
+            start = k * tau + r.choice([0.0, 1e-7, -1e-7, 0.25, -0.25])
+            end = start + float(length)
+        else:
+            start, end = start + k * tau, start + k * tau + float(length)
+    op = r.choice(["a_contains", "a_contains", "a_contains", "a_containsI", "a_rel", "a_rel", "a_add", "a_sub", "mk_angle", "a_setter"])
+    case = {"kind": "angle", "op": op, "s": start, "e": end}
+    length = float(end) - float(start)
     if op == "a_contains":
         ths = []
         for _ in range(10):
-            base = r.choice([start, start + length, start + length / 2, start - 0.01, start + length + 0.01, start + length + 1e-6,
-                             start - 1e-6, r.uniform(-7, 7), r.randint(-7, 7), start + length + (2 * pi - length) / 2])
-            k = r.choice([0, 0, 1, -1, 2, -3])
+            base = r.choice([start, end, start + length / 2, start - 0.01, end + 0.01, end + 1e-6,
+                             start - 1e-6, r.uniform(-7, 7), r.randint(-7, 7), end + (2 * pi - length) / 2,
+                             -tau, tau, -pi, pi, 0.0])
+            k = r.choice([0, 0, 1, -1, 2, -3, 50, -1000, 1000])
             th = base + 2 * pi * k
             if isinstance(base, int) and k == 0:
                 th = base
+            if r.random() < 0.04:
+                th = r.choice([-1, 1]) * r.uniform(1e3, 1e5)                        # huge angle
+            if r.random() < 0.15:
+                th = retype(r, th, allow32=False, p=1.0)                            # int / numpy 64-bit scalar of the same value
             ths.append(th)
         case["thetas"] = ths
+        if r.random() < 0.08 and abs(float(start)) < 20:
+            # numpy float32 everywhere (the library then computes in 24-bit arithmetic: judged with the band 1e-5)
+            import numpy as np
+            case["s"], case["e"] = enc(np.float32(start)), enc(np.float32(end))
+            case["thetas"] = [enc(np.float32(r.uniform(-9, 9))) for _ in range(8)]
+        elif r.random() < 0.08:
+            import numpy as np
+            case["thetas"] = [enc(np.float32(r.uniform(-9, 9))) for _ in range(8)]
+        elif r.random() < 0.1:
+            case["s"], case["e"] = retype(r, start, False, 1.0), retype(r, end, False, 1.0)
     elif op == "a_containsI":
         l2 = r.choice([0.0, length / 2, length, length + 0.01, 1.0, 5.0, r.uniform(0, 2 * pi - 1e-9)])
         s2 = r.choice([start, start + 0.1, start + length - l2, start + length / 2, r.uniform(-2 * pi, 2 * pi - l2), start - 0.05,
@@ -267,8 +550,19 @@ def gen_angle(ctx):
         if not (-2 * pi <= s2 and s2 + l2 <= 2 * pi):
             s2 = max(-2 * pi, min(s2, 2 * pi - l2))
         case["c"], case["d"] = s2, s2 + l2
+    elif op == "a_rel":
+        # every relative position of J to I: J starts before / at / inside / at the end of / behind I, ends before / at /
+        # behind I's end, reaches round into I's start (wrap-around), lies in the gap, covers the gap; whole turns added
+        gap = 2 * pi - length
+        l2 = r.choice([0.0, 1e-7, length / 3, length, length + 0.02, gap / 2, gap, gap + 0.02, min(length + gap / 2, 6.2), 6.2])
+        off = r.choice([-0.03, 0.0, 0.03, length / 2, length - l2, length - l2 - 0.02, length - l2 + 0.02, length, length + 0.02,
+                        length + gap / 2, -gap / 2, 2 * pi - 0.03 - l2, -l2, -l2 / 2])
+        k = r.choice([0, 0, 1, -1, 2, -2])
+        case["c"] = float(start) + off + k * tau
+        case["d"] = case["c"] + l2
     elif op in ("a_add", "a_sub"):
-        case["x"] = r.choice([0.0, 1.0, -1.0, pi, -pi, 2 * pi, 3.5, r.uniform(-6, 6), 1, -2])
+        case["x"] = r.choice([0.0, 1.0, -1.0, pi, -pi, 2 * pi, 3.5, r.uniform(-6, 6), 1, -2, tau, -tau, 3 * tau, -50 * tau, 1000.5, -777,
+                              enc_np("f64", 0.75), enc_np("i64", 3), enc_np("i32", -2)])
         case["thetas"] = [r.uniform(-7, 7) for _ in range(6)]
     elif op == "a_setter":
         # query, then move one end through its property setter, then query again (a cached width must not survive)
@@ -283,6 +577,11 @@ def gen_angle(ctx):
     return case
 
 
+def enc_np(tag, v):
+    import numpy as np
+    return enc(getattr(np, _NP[tag])(v))
+
+
 def amem_exact(a: Fraction, b: Fraction, th: Fraction, tau: Fraction):
     """(member?, distance to the nearest end point modulo tau) in exact arithmetic."""
     import math as m
@@ -292,107 +591,151 @@ def amem_exact(a: Fraction, b: Fraction, th: Fraction, tau: Fraction):
     return member, dist
 
 
-def run_angle(ctx, case):
+def near_turn(x: Fraction, T: Fraction, band):
+    """x is within `band` of a non-zero whole multiple of tau (where a normalisation loop decides within round-off)."""
+    k = round(x / T)
+    return k != 0 and abs(x - k * T) < band
+
+
+def cmp_norm(ctx, raw, got, model, args, T, band, what):
+    """Correspondence of a normalised pair: equal within the band; when an argument sits within round-off of a loop
+    threshold (a whole multiple of tau) the two may legitimately end one turn apart."""
+    if "ok" not in model:
+        ctx.compare(raw, {"ok": "interval"}, model, what)
+        return
+    ms, me = unrat(model["ok"][0]), unrat(model["ok"][1])
+    ds, de = frac(got[0]) - ms, frac(got[1]) - me
+    okc = abs(ds) <= band and abs(de) <= band
+    if not okc and any(near_turn(frac(v), T, band) for v in args):
+        k = round(ds / T)
+        if abs(k) == 1 and abs(ds - k * T) <= band and abs(de - k * T) <= band:
+            ctx.excluded += 1
+            ctx.tag("angle/turn-ambiguous")
+            return
+    ctx.compare(raw, f"within {float(band)}" if okc else [rat(got[0]), rat(got[1])], f"within {float(band)}" if okc else model["ok"], what)
+
+
+def member_checks(ctx, raw, head, interval, thetas, lo, hi, label, T, band, shift=Fraction(0)):
+    """Compare the real membership of each theta in `interval` with the exact set [lo,hi] mod tau."""
+    impl, keep = [], []
+    for th_raw in thetas:
+        th = val(th_raw)
+        if isinstance(th, int):
+            ctx.tag("angle/int-arg")
+        elif type(th) is not float:
+            ctx.tag("angle/numpy-arg")
+        r1, r2 = call(interval.contains, th), call(interval.__contains__, th)
+        if r1[0] != "ok" or r2[0] != "ok":
+            bad = r1 if r1[0] != "ok" else r2
+            ctx.fail(f"C16/AngleInterval.{label}/raises-{bad[1]}",
+                     f"{head} membership of {th!r} ({type(th).__name__}) raised {bad[2]}",
+                     dict(raw, thetas=[th_raw]))
+            continue
+        if bool(r1[1]) != bool(r2[1]):
+            ctx.fail(f"C16/AngleInterval.{label}/contains-vs-__contains__", f"differ for {th!r}", dict(raw, thetas=[th_raw]))
+        member, dist = amem_exact(lo, hi, frac(th) - shift, T)
+        if abs(frac(th)) > abs(frac(th) - shift - lo) or abs(frac(th) - lo) >= T:
+            ctx.tag("angle/wrap")
+        if abs(frac(th)) > 100:
+            ctx.tag("angle/huge-theta")
+        if dist < band + abs(frac(th)) * Fraction(1, 10 ** 15):
+            ctx.excluded += 1
+            continue
+        impl.append(bool(r1[1]))
+        keep.append(th)
+        if bool(r1[1]) != member:
+            ctx.fail(f"C16/AngleInterval.{label}/wrong-membership",
+                     f"{head} -> [{float(lo)},{float(hi)}]: {th!r} reported {bool(r1[1])}, "
+                     f"set semantics (theta+2pi*k in [a,b]) give {member}", dict(raw, thetas=[th_raw]))
+    return impl, keep
+
+
+def containsI_check(ctx, raw, iv, jv, T, band, eps, tau, label="contains(interval)"):
+    """iv.contains(jv) against containment of all points (exact, with the ambiguity band)."""
+    A, B, C, D = frac(iv.start), frac(iv.end), frac(jv.start), frac(jv.end)
+    r3 = call(iv.contains, jv)        # (`jv in iv` is not exercised: AngleInterval.__contains__ is declared for numbers only)
+    if r3[0] != "ok":
+        ctx.fail(f"C16/AngleInterval.{label}/raises-{r3[1]}", f"{r3[2]}", raw)
+        return
+    # exact: offset d of C from A modulo tau, need d + (D-C) <= B-A ; ambiguous within the band
+    d = (C - A) % T
+    slack = (B - A) - (d + (D - C))
+    if T - d < band or abs(slack) < band:
+        ctx.excluded += 1             # J starts within round-off before I's start (modulo tau), or ends within round-off of I's end
+        return
+    want = slack >= 0
+    if ctx.driver is not None:
+        model = ctx.driver.ask("C16", "a_containsI", {"tau": rat(tau), "eps": rat(eps), "a": rat(iv.start), "b": rat(iv.end),
+                                                      "c": rat(jv.start), "d": rat(jv.end)})
+        ctx.compare(raw, {"ok": bool(r3[1])}, model, "AngleInterval.contains(AngleInterval) vs CR.Iv.containsAngleI")
+    ctx.tag("angle/containsI-true" if want else "angle/containsI-false")
+    if bool(r3[1]) != want:
+        ctx.fail(f"C16/AngleInterval.{label}/wrong",
+                 f"[{iv.start},{iv.end}].contains([{jv.start},{jv.end}]) = {r3[1]}, containment of all points gives {want}", raw)
+
+
+def run_angle(ctx, raw):
     from commonroad.common.util import AngleInterval
+    case = dec(raw)
     tau = _tau()
     T = frac(tau)
     eps = AngleInterval._TOLERANCE if hasattr(AngleInterval, "_TOLERANCE") else 0.0
     op = case["op"]
-    ctx.case(case)
+    ctx.case(raw)
     ctx.tag("angle/" + op)
+    band = BAND32 if '"f32:' in json.dumps(raw) else BAND
+    if band is BAND32:
+        ctx.tag("angle/float32")
     s, e = case["s"], case["e"]
+    if any(abs(frac(v) - b) == 0 for v in (s, e) for b in (T, -T, frac(math.pi), -frac(math.pi))):
+        ctx.tag("angle/bound-at-pi-or-2pi")
+    if abs(frac(s)) > 3 * T:
+        ctx.tag("angle/ctor-many-turns")
     r = call(AngleInterval, s, e)
     want_ok = frac(s) <= frac(e) and frac(e) - frac(s) < T
+    if abs(frac(e) - frac(s) - T) < band:
+        ctx.excluded += 1                               # length within round-off of 2pi: acceptance is not determined
+        return
     # --- construction: correspondence + oracle
     model_mk = ctx.driver.ask("C16", "mk_angle", {"tau": rat(tau), "s": rat(s), "e": rat(e)})
     if r[0] != "ok":
-        ctx.compare(case, {"err": r[1]}, model_mk if "err" in model_mk else {"ok": "interval"}, "AngleInterval() vs CR.Iv.mkAngle")
+        ctx.compare(raw, {"err": r[1]}, model_mk if "err" in model_mk else {"ok": "interval"}, "AngleInterval() vs CR.Iv.mkAngle")
         if want_ok:
-            ctx.fail(f"C16/AngleInterval.__init__/raises-{r[1]}", f"AngleInterval({s},{e}) raised {r[2]}", case)
+            ctx.fail(f"C16/AngleInterval.__init__/raises-{r[1]}", f"AngleInterval({s!r},{e!r}) raised {r[2]}", raw)
         return
     iv = r[1]
     if not want_ok:
-        # admissible boundary: float length may round below tau; only flag clear cases
-        if frac(s) > frac(e) or frac(e) - frac(s) >= T + BAND:
-            ctx.fail("C16/AngleInterval.__init__/not-rejected", f"AngleInterval({s},{e}) accepted", case)
+        ctx.fail("C16/AngleInterval.__init__/not-rejected", f"AngleInterval({s!r},{e!r}) accepted", raw)
         return
-    if "ok" in model_mk:
-        ms, me = unrat(model_mk["ok"][0]), unrat(model_mk["ok"][1])
-        okc = abs(ms - frac(iv.start)) <= BAND and abs(me - frac(iv.end)) <= BAND
-        ctx.compare(case, "normalised interval within 1e-9" if okc else [rat(iv.start), rat(iv.end)],
-                    "normalised interval within 1e-9" if okc else model_mk["ok"], "AngleInterval() vs CR.Iv.mkAngle")
-    else:
-        ctx.compare(case, {"ok": "interval"}, model_mk, "AngleInterval() vs CR.Iv.mkAngle")
+    cmp_norm(ctx, raw, (iv.start, iv.end), model_mk, (s, e), T, band, "AngleInterval() vs CR.Iv.mkAngle")
     A, B = frac(iv.start), frac(iv.end)
     k = round((A - frac(s)) / T)
-    if not (abs(A - frac(s) - k * T) <= BAND and abs((B - A) - (frac(e) - frac(s))) <= BAND and -T <= A and B <= T and A <= B):
-        ctx.fail("C16/AngleInterval.__init__/wrong-normalisation", f"AngleInterval({s},{e}) -> [{iv.start},{iv.end}]", case)
+    if not (abs(A - frac(s) - k * T) <= band and abs((B - A) - (frac(e) - frac(s))) <= band and -T - (band if band is BAND32 else 0) <= A
+            and B <= T + (band if band is BAND32 else 0) and A <= B):
+        ctx.fail("C16/AngleInterval.__init__/wrong-normalisation", f"AngleInterval({s!r},{e!r}) -> [{iv.start},{iv.end}]", raw)
     if B - A > frac(math.pi):
         ctx.tag("angle/long")
+    if B == A:
+        ctx.tag("angle/zero-length")
     if op == "mk_angle":
         return
-
-    def member_checks(interval, thetas, lo, hi, label, shift=Fraction(0)):
-        """Compare impl membership of each theta in `interval` with the exact set [lo,hi] mod tau."""
-        impl, keep = [], []
-        for th in thetas:
-            if isinstance(th, int):
-                ctx.tag("angle/int-arg")
-            r1, r2 = call(interval.contains, th), call(interval.__contains__, th)
-            if r1[0] != "ok" or r2[0] != "ok":
-                bad = r1 if r1[0] != "ok" else r2
-                ctx.fail(f"C16/AngleInterval.{label}/raises-{bad[1]}",
-                         f"AngleInterval({s},{e}) membership of {th!r} ({type(th).__name__}) raised {bad[2]}",
-                         dict(case, thetas=[th]))
-                continue
-            if bool(r1[1]) != bool(r2[1]):
-                ctx.fail(f"C16/AngleInterval.{label}/contains-vs-__contains__", f"differ for {th!r}", dict(case, thetas=[th]))
-            member, dist = amem_exact(lo, hi, frac(th) - shift, T)
-            if abs(frac(th)) > abs(frac(th) - shift - lo) or abs(frac(th) - lo) >= T:
-                ctx.tag("angle/wrap")
-            if dist < BAND:
-                ctx.excluded += 1
-                continue
-            impl.append(bool(r1[1]))
-            keep.append(th)
-            if bool(r1[1]) != member:
-                ctx.fail(f"C16/AngleInterval.{label}/wrong-membership",
-                         f"AngleInterval({s},{e}) -> [{float(lo)},{float(hi)}]: {th!r} reported {bool(r1[1])}, "
-                         f"set semantics (theta+2pi*k in [a,b]) give {member}", dict(case, thetas=[th]))
-        return impl, keep
+    head = f"AngleInterval({s!r},{e!r})"
 
     if op == "a_contains":
-        impl, keep = member_checks(iv, case["thetas"], A, B, "contains")
+        impl, keep = member_checks(ctx, raw, head, iv, raw["thetas"], A, B, "contains", T, band)
         if keep:
             model = ctx.driver.ask("C16", "a_contains", {"tau": rat(tau), "eps": rat(eps), "a": rat(iv.start), "b": rat(iv.end),
                                                          "thetas": [rat(t) for t in keep]})
-            ctx.compare(dict(case, thetas=keep), impl, model, "AngleInterval.contains vs CR.Iv.containsAngle")
-    elif op == "a_containsI":
+            if band is BAND:
+                ctx.compare(dict(raw, thetas=[enc(t) for t in keep]), impl, model, "AngleInterval.contains vs CR.Iv.containsAngle")
+    elif op in ("a_containsI", "a_rel"):
         ctx.tag("angle/containsI")
         r2 = call(AngleInterval, case["c"], case["d"])
         if r2[0] != "ok":
+            if frac(case["d"]) - frac(case["c"]) < T - band:
+                ctx.fail(f"C16/AngleInterval.__init__/raises-{r2[1]}", f"AngleInterval({case['c']!r},{case['d']!r}) raised {r2[2]}", raw)
             return
-        jv = r2[1]
-        C, D = frac(jv.start), frac(jv.end)
-        r3 = call(iv.contains, jv)
-        if r3[0] != "ok":
-            ctx.fail(f"C16/AngleInterval.contains(interval)/raises-{r3[1]}", f"{r3[2]}", case)
-            return
-        # exact: offset d of C from A modulo tau, need d + (D-C) <= B-A ; ambiguous within the band
-        d = (C - A) % T
-        slack = (B - A) - (d + (D - C))
-        slack2 = (B - A) - ((d - T) + (D - C)) if T - d < BAND else None   # start coincides modulo tau up to round-off
-        amb = abs(slack) < BAND or (slack2 is not None) or d < BAND and False
-        if slack2 is not None or abs(slack) < BAND:
-            ctx.excluded += 1
-        else:
-            want = slack >= 0
-            model = ctx.driver.ask("C16", "a_containsI", {"tau": rat(tau), "eps": rat(eps), "a": rat(iv.start), "b": rat(iv.end),
-                                                          "c": rat(jv.start), "d": rat(jv.end)})
-            ctx.compare(case, {"ok": bool(r3[1])}, model, "AngleInterval.contains(AngleInterval) vs CR.Iv.containsAngleI")
-            if bool(r3[1]) != want:
-                ctx.fail("C16/AngleInterval.contains(interval)/wrong",
-                         f"[{iv.start},{iv.end}].contains([{jv.start},{jv.end}]) = {r3[1]}, containment of all points gives {want}", case)
+        containsI_check(ctx, raw, iv, r2[1], T, band, eps, tau)
     elif op == "a_setter":
         for th in case["thetas"][:3]:
             call(iv.contains, th)
@@ -406,64 +749,593 @@ def run_angle(ctx, case):
             return
         r5 = call(setattr, iv, case["which"], v)
         if r5[0] != "ok":
-            ctx.fail(f"C16/AngleInterval.{case['which']}-setter/raises-{r5[1]}", f"[{A},{B}].{case['which']} = {v} raised {r5[2]}", case)
+            ctx.fail(f"C16/AngleInterval.{case['which']}-setter/raises-{r5[1]}", f"[{A},{B}].{case['which']} = {v} raised {r5[2]}", raw)
             return
         ctx.tag("angle/setter-then-query")
         A2, B2 = frac(iv.start), frac(iv.end)
         if (A2, B2) != ((frac(v), B) if case["which"] == "start" else (A, frac(v))):
-            ctx.fail(f"C16/AngleInterval.{case['which']}-setter/wrong-bounds", f"after {case['which']} = {v}: [{iv.start},{iv.end}]", case)
+            ctx.fail(f"C16/AngleInterval.{case['which']}-setter/wrong-bounds", f"after {case['which']} = {v}: [{iv.start},{iv.end}]", raw)
             return
-        impl, keep = member_checks(iv, case["thetas"], A2, B2, f"contains-after-{case['which']}-setter")
+        impl, keep = member_checks(ctx, raw, head, iv, raw["thetas"], A2, B2, f"contains-after-{case['which']}-setter", T, band)
         if keep:
             model = ctx.driver.ask("C16", "a_contains", {"tau": rat(tau), "eps": rat(eps), "a": rat(iv.start), "b": rat(iv.end),
                                                          "thetas": [rat(t) for t in keep]})
-            ctx.compare(dict(case, thetas=keep), impl, model, "AngleInterval.contains after a setter vs CR.Iv.containsAngle on the new bounds")
+            ctx.compare(dict(raw, thetas=keep), impl, model, "AngleInterval.contains after a setter vs CR.Iv.containsAngle on the new bounds")
         # interval containment after the setter: the interval contains itself and every sub-arc
         sub = call(AngleInterval, float(iv.start) + case["newlen"] / 4, float(iv.end) - case["newlen"] / 4)
         if sub[0] == "ok" and case["newlen"] > 1e-6:
             r6 = call(iv.contains, sub[1])
             if r6[0] != "ok" or not r6[1]:
                 ctx.fail(f"C16/AngleInterval.contains(interval)/wrong-after-{case['which']}-setter",
-                         f"[{iv.start},{iv.end}] (after the setter) does not contain its sub-arc [{sub[1].start},{sub[1].end}]: {r6[1:]}", case)
+                         f"[{iv.start},{iv.end}] (after the setter) does not contain its sub-arc [{sub[1].start},{sub[1].end}]: {r6[1:]}", raw)
     elif op in ("a_add", "a_sub"):
         ctx.tag("angle/shift")
         x = case["x"]
+        if abs(frac(x)) > 50:
+            ctx.tag("angle/shift-many-turns")
         r4 = call((lambda: iv + x) if op == "a_add" else (lambda: iv - x))
         if r4[0] != "ok":
-            ctx.fail(f"C16/AngleInterval.{op}/raises-{r4[1]}", f"[{iv.start},{iv.end}] {op} {x} raised {r4[2]}", case)
+            ctx.fail(f"C16/AngleInterval.{op}/raises-{r4[1]}", f"[{iv.start},{iv.end}] {op} {x!r} raised {r4[2]}", raw)
             return
         sh = r4[1]
         model = ctx.driver.ask("C16", op, {"tau": rat(tau), "a": rat(iv.start), "b": rat(iv.end), "x": rat(x)})
-        if "ok" in model:
-            ms, me = unrat(model["ok"][0]), unrat(model["ok"][1])
-            okc = abs(ms - frac(sh.start)) <= BAND and abs(me - frac(sh.end)) <= BAND
-            ctx.compare(case, "shifted interval within 1e-9" if okc else [rat(sh.start), rat(sh.end)],
-                        "shifted interval within 1e-9" if okc else model["ok"], f"AngleInterval {op} vs CR.Iv")
-        else:
-            ctx.compare(case, {"ok": "interval"}, model, f"AngleInterval {op} vs CR.Iv")
+        sgn = 1 if op == "a_add" else -1
+        bandx = band + abs(frac(x)) * Fraction(1, 10 ** 13)
+        cmp_norm(ctx, raw, (sh.start, sh.end), model, (A + sgn * frac(x), B + sgn * frac(x)), T, bandx, f"AngleInterval {op} vs CR.Iv")
         shift = frac(x) if op == "a_add" else -frac(x)
         if not isinstance(sh, AngleInterval) or not (frac(sh.start) <= frac(sh.end)):
-            ctx.fail(f"C16/AngleInterval.{op}/invalid-result", f"{sh}", case)
+            ctx.fail(f"C16/AngleInterval.{op}/invalid-result", f"{sh}", raw)
+        if (frac(iv.start), frac(iv.end)) != (A, B):
+            ctx.fail(f"C16/AngleInterval.{op}/operand-changed", f"the operand is now [{iv.start},{iv.end}]", raw)
         # image set: theta in shifted  <=>  theta - shift in original
-        member_checks(sh, case["thetas"], A, B, op, shift=shift)
+        member_checks(ctx, raw, head, sh, raw["thetas"], A, B, op, T, bandx, shift=shift)
+
+
+# ------------------------------------------------------------------------------------------------ histories on plain intervals
+
+PROG_MUT = ["set_start", "set_end", "add", "sub", "mul", "div", "round", "inter", "copy"]
+PROG_QRY = ["contains", "in", "containsI", "inI", "overlaps", "intersection", "length", "gt", "lt", "gtI", "ltI", "noise"]
+COPIES = ["copy", "deepcopy", "pickle", "ctor-from-iter", "ctor-from-props"]
+NOISE = ["hash", "eq-self", "eq-copy", "eq-number", "str", "repr", "iter", "getters"]
+
+
+def _sim_step(lo, hi, st):
+    """Set semantics of one history step on the exact state [lo, hi] (generator side: picks absolute arguments)."""
+    op = st["op"]
+    x = frac(val(st["x"])) if "x" in st else None
+    if op == "set_start":
+        return (x, hi) if x <= hi else (lo, hi)
+    if op == "set_end":
+        return (lo, x) if lo <= x else (lo, hi)
+    if op == "add":
+        return lo + x, hi + x
+    if op == "sub":
+        return lo - x, hi - x
+    if op == "mul":
+        return min(lo * x, hi * x), max(lo * x, hi * x)
+    if op == "div":
+        return (lo, hi) if x == 0 else (min(lo / x, hi / x), max(lo / x, hi / x))
+    if op == "round":
+        return round_exact(lo, st["n"]), round_exact(hi, st["n"])
+    if op == "inter":
+        c, d = frac(val(st["c"])), frac(val(st["d"]))
+        return (max(lo, c), min(hi, d)) if max(lo, c) <= min(hi, d) else (lo, hi)
+    return lo, hi
+
+
+def _fl(v: Fraction):
+    """A Fraction of the dyadic grid as the float / int it is."""
+    return int(v) if v.denominator == 1 and abs(v) < 2 ** 40 and (v.numerator % 2 == 0 or v == 1) else float(v)
+
+
+def gen_prog(ctx):
+    """A history on ONE Interval object: setters after construction and after queries (several in a row, crossing ones
+    that must be rejected, the same value handed back), arithmetic results fed into further operations, copies, read-only
+    queries in between. Arguments are absolute numbers chosen next to the state the set semantics predict."""
+    r = ctx.rng
+
+    def g(lim=256):
+        if r.random() < 0.1:
+            return r.choice([0, 0.0, -0.0, 1, -1])
+        k = r.randint(-lim, lim)
+        return k / 16.0 if r.random() < 0.7 else k // 16
+    a, b = sorted([g(), g()], key=float)
+    if r.random() < 0.12:
+        b = a
+    lo, hi = frac(a), frac(b)
+    steps = []
+    n = r.randint(3, 9)
+    while len(steps) < n:
+        op = r.choice(PROG_MUT + ["set_start", "set_end", "mul", "div"] if r.random() < 0.6 else PROG_QRY)
+        st = {"op": op}
+        e16 = Fraction(1, 16)
+        if max(lo.denominator, hi.denominator) > 2 ** 20 and op in ("add", "sub", "mul", "div", "length"):
+            continue            # after a decimal rounding the bounds are off the dyadic grid: float arithmetic would round
+        near = [lo, hi, lo - e16, lo + e16, hi - e16, hi + e16, (lo + hi) / 2, frac(g()), Fraction(int(lo)), Fraction(int(hi))]
+        if op == "set_start":
+            st["x"] = _fl(r.choice([lo, hi, hi + e16, hi + 3, lo - 1, lo - e16, (lo + hi) / 2, hi - e16, frac(g())]))
+        elif op == "set_end":
+            st["x"] = _fl(r.choice([hi, lo, lo - e16, lo - 3, hi + 1, hi + e16, (lo + hi) / 2, lo + e16, frac(g())]))
+        elif op in ("add", "sub", "contains", "in", "gt", "lt"):
+            st["x"] = _fl(r.choice(near))
+        elif op == "mul":
+            if max(abs(lo), abs(hi)) > 2 ** 18 or max(lo.denominator, hi.denominator) > 2 ** 14:
+                continue
+            st["x"] = r.choice([0, 0.0, -0.0, -1, -0.5, 2, 0.25, -3, 1, g(64)])
+        elif op == "div":
+            if max(abs(lo), abs(hi)) > 2 ** 18 or max(lo.denominator, hi.denominator) > 2 ** 14:
+                continue
+            st["x"] = r.choice([1, -1, 2, -2, 0.5, -0.5, 4.0, -8.0, 0.125, -0.0625] + ([0, 0.0] if r.random() < 0.1 else []))
+        elif op == "round":
+            st["n"] = r.choice([None, 0, 1, 2, -1])
+        elif op in ("inter", "containsI", "inI", "overlaps", "intersection", "gtI", "ltI"):
+            c, d = sorted([r.choice(near), r.choice(near)])
+            st["c"], st["d"] = _fl(c), _fl(d)
+        elif op == "copy":
+            st["how"] = r.choice(COPIES)
+        elif op == "noise":
+            st["what"] = r.choice(NOISE)
+        steps.append(st)
+        lo, hi = _sim_step(lo, hi, st)
+    case = {"kind": "prog", "a": a, "b": b, "steps": steps}
+    if r.random() < 0.3:
+        import numpy as np
+        nums = [frac(a), frac(b)] + [frac(st[k]) for st in steps for k in ("x", "c", "d") if k in st]
+        lo, hi = frac(a), frac(b)
+        for st in steps:
+            lo, hi = _sim_step(lo, hi, st)
+            nums += [lo, hi]
+        a32 = all(float(np.float32(float(v))) == v for v in nums) and not any(st["op"] == "round" and (st["n"] or 0) > 0 for st in steps)
+        case["a"], case["b"] = retype(r, a, a32), retype(r, b, a32)
+        for st in steps:
+            for k in ("x", "c", "d"):
+                if k in st and not (st["op"] == "div" and frac(st[k]) == 0):
+                    st[k] = retype(r, st[k], a32, p=0.4)
+    return case
+
+
+def _copy_of(i, how):
+    import copy
+    import pickle
+    if how == "copy":
+        return copy.copy(i)
+    if how == "deepcopy":
+        return copy.deepcopy(i)
+    if how == "pickle":
+        return pickle.loads(pickle.dumps(i))
+    if how == "ctor-from-iter":
+        return type(i)(*i)                                   # __iter__ yields start, end
+    return type(i)(i.start, i.end)
+
+
+def _noise(i, what):
+    """Read-only entry points the property does not speak about; they must not disturb what it does speak about."""
+    import copy
+    import warnings
+    with warnings.catch_warnings():
+        warnings.simplefilter("ignore")
+        if what == "hash":
+            return call(hash, i)
+        if what == "eq-self":
+            return call(lambda: i == i)
+        if what == "eq-copy":
+            return call(lambda: i == copy.copy(i))
+        if what == "eq-number":
+            return call(lambda: i == 3)
+        if what == "str":
+            return call(str, i)
+        if what == "repr":
+            return call(repr, i)
+        if what == "iter":
+            return call(tuple, i)
+        return call(lambda: (i.start, i.end, i.length))
+
+
+def run_prog(ctx, raw):
+    from commonroad.common.util import Interval
+    ctx.case(raw)
+    ctx.tag("prog/case")
+    a, b = val(raw["a"]), val(raw["b"])
+    if has32(raw):
+        ctx.tag("prog/32bit-operand")
+    r0 = call(Interval, a, b)
+    if r0[0] != "ok":
+        if frac(a) <= frac(b):
+            ctx.fail(f"C16/Interval.mk/raises-{r0[1]}", f"Interval({a!r},{b!r}) raised {r0[2]}", raw)
+        return
+    cur = r0[1]
+    lo, hi = frac(a), frac(b)
+    olds = []                       # (object, expected bounds, description): objects the history has moved on from
+    msteps, mimpl, rtab = [], [], []
+    nset = 0
+    prev_failed = False
+    for k, st in enumerate(raw["steps"]):
+        op = st["op"]
+        desc = f"step {k} ({op}) of a history on Interval({a!r},{b!r})"
+        sub = dict({kk: (val(v) if kk in ("x", "c", "d") else v) for kk, v in st.items()}, a=lo, b=hi, kind="plain", exact_round=True)
+        if op == "copy":
+            ctx.tag("prog/copy-" + st["how"])
+            rc = call(_copy_of, cur, st["how"])
+            if rc[0] != "ok":
+                ctx.fail(f"C16/history/Interval.copy/raises-{rc[1]}", f"{desc}: {st['how']} raised {rc[2]}", raw)
+                return
+            olds.append((cur, (lo, hi), f"the object a {st['how']} was taken from at step {k}"))
+            cur = rc[1]
+            if type(cur) is not Interval or (frac(cur.start), frac(cur.end)) != (lo, hi):
+                ctx.fail("C16/history/Interval.copy/wrong-set", f"{desc}: the {st['how']} is [{cur.start},{cur.end}], original [{float(lo)},{float(hi)}]", raw)
+                return
+            continue
+        if op == "noise":
+            ctx.tag("prog/noise")
+            _noise(cur, st["what"])
+        else:
+            want = plain_oracle(sub)
+            before = cur
+            rr = call(plain_apply, cur, "intersection" if op == "inter" else op, sub)
+            impl = {"ok": rr[1]} if rr[0] == "ok" else {"err": rr[1]}
+            chain = op in ("add", "sub", "mul", "div", "round", "inter")
+            if prev_failed:
+                ctx.tag("prog/op-after-failed-op")
+            prev_failed = "err" in impl
+            if op in ("set_start", "set_end"):
+                nset += 1
+                ctx.tag("prog/setter-rejected" if "err" in want else "prog/setter-ok")
+                if nset >= 2:
+                    ctx.tag("prog/several-setters")
+                if k > 0 and raw["steps"][k - 1]["op"] in PROG_QRY:
+                    ctx.tag("prog/setter-after-query")
+                if "err" not in want and frac(sub["x"]) in (lo, hi):
+                    ctx.tag("prog/setter-same-or-other-bound")
+            if op == "inter":
+                # intersection fed back: the history continues with the result (None: with the object itself)
+                want = {"ok": want["ok"] if want["ok"] is not None else [rat(lo), rat(hi)]}
+                if "ok" in impl and impl["ok"] is None:
+                    impl = {"ok": [rat(lo), rat(hi)]}
+            zero_div = op == "div" and frac(sub["x"]) == 0
+            if zero_div:
+                ctx.tag("prog/div-zero")
+                # not an admissible scalar (ZeroDivisionError for Python bounds, inf / nan for numpy ones): no verdict on the
+                # step itself; what counts is that the object is untouched and the history goes on
+                impl = {"err": "zero-div"}
+            elif impl != want:
+                if "err" in impl and "err" not in want:
+                    ctx.fail(f"C16/history/Interval.{op}/raises-{impl['err']}", f"{desc} on [{float(lo)},{float(hi)}] raised {rr[2]}", raw)
+                elif "err" in want:
+                    ctx.fail(f"C16/history/Interval.{op}/not-rejected", f"{desc} on [{float(lo)},{float(hi)}]: crossing bound accepted: {impl}", raw)
+                else:
+                    ctx.fail(f"C16/history/Interval.{op}/wrong-set", f"{desc} on [{float(lo)},{float(hi)}] with "
+                             f"{ {q: st[q] for q in st if q != 'op'} } = {impl}, the set semantics give {want}", raw)
+                return
+            if op in PROG_MUT:
+                st_m = {"op": op}
+                if "x" in st:
+                    st_m["x"] = rat(sub["x"])
+                if op == "round":
+                    st_m["n"] = st["n"] or 0
+                    for v in (cur.start, cur.end):
+                        rtab.append([st["n"] or 0, rat(v), rat(round(v, st["n"]))])
+                if op == "inter":
+                    st_m["c"], st_m["d"] = rat(sub["c"]), rat(sub["d"])
+                msteps.append(st_m)
+                mimpl.append(impl)
+            elif op != "noise" and ctx.driver is not None:
+                q = {"in": "contains", "inI": "containsI"}.get(op, op)
+                args = {kk: rat(v) for kk, v in sub.items() if kk in ("a", "b", "c", "d", "x")}
+                ctx.compare(raw, impl, ctx.driver.ask("C16", q, args), f"Interval.{op} inside a history vs CR.Iv")
+            if chain and "ok" in impl and not zero_div:
+                ctx.tag("prog/chain")
+                # the operation returned a NEW object; the history goes on with it, the operand must stay as it was
+                res = _chain_result(cur, op, sub)
+                if res is not None:
+                    olds.append((cur, (lo, hi), f"the operand of {op} at step {k}"))
+                    cur = res
+                lo, hi = unrat(want["ok"][0]), unrat(want["ok"][1])
+            elif op in ("set_start", "set_end") and "ok" in want:
+                lo, hi = unrat(want["ok"][0]), unrat(want["ok"][1])
+            if cur is not before and type(cur) is not Interval:
+                ctx.fail(f"C16/history/Interval.{op}/result-type", f"{desc}: result is a {type(cur).__name__}", raw)
+                return
+        # the object after the step denotes exactly the predicted set (a query / a raising step must not move it)
+        if (frac(cur.start), frac(cur.end)) != (lo, hi):
+            ctx.fail(f"C16/history/Interval.{op}/object-changed", f"{desc}: the object is now [{cur.start},{cur.end}], "
+                     f"the set semantics give [{float(lo)},{float(hi)}]", raw)
+            return
+    for o, (elo, ehi), what in olds:
+        if (frac(o.start), frac(o.end)) != (elo, ehi):
+            ctx.fail("C16/history/Interval/earlier-object-changed", f"{what} was [{float(elo)},{float(ehi)}] and is now [{o.start},{o.end}] "
+                     f"after the history went on with another object", raw)
+            return
+    if msteps and ctx.driver is not None:
+        ctx.tag("prog/model-trace")
+        model = ctx.driver.ask("C16", "prog", {"a": rat(a), "b": rat(b), "steps": msteps, "rtab": rtab})
+        ctx.compare(raw, {"trace": mimpl, "final": [rat(cur.start), rat(cur.end)]}, model, "history on an Interval vs CR.Iv.runOps / finalOps")
+
+
+def _chain_result(cur, op, sub):
+    """Re-run a chaining operation to get the resulting OBJECT (plain_apply returned its canonical form)."""
+    from commonroad.common.util import Interval
+    x = sub.get("x")
+    if op == "add":
+        return cur + x
+    if op == "sub":
+        return cur - x
+    if op == "mul":
+        return cur * x
+    if op == "div":
+        return cur / x
+    if op == "round":
+        return round(cur, sub["n"])
+    return cur.intersection(Interval(sub["c"], sub["d"]))     # None: keep the object
+
+
+# ------------------------------------------------------------------------------------------------ histories on angle intervals
+
+def gen_aprog(ctx):
+    """A history on ONE AngleInterval object. Setter arguments are given relative to the bounds the object has when the
+    step runs (the constructor normalises, so absolute values are not known beforehand)."""
+    r = ctx.rng
+    pi = math.pi
+    length = r.choice([0.0, 0.3, 1.0, pi, 4.0, 5.5, r.uniform(0, 2 * pi - 1e-3), 1, 3])
+    start = r.choice([-pi, 0.0, -2 * pi, r.uniform(-2 * pi, 2 * pi - float(length)), r.uniform(-6 * pi, 6 * pi), -3, 0])
+    steps = []
+    for _ in range(r.randint(3, 8)):
+        op = r.choice(["set", "set", "set", "contains", "contains", "containsI", "add", "sub", "copy", "noise"])
+        st = {"op": op}
+        if op == "set":
+            st["which"] = r.choice(["start", "end"])
+            st["mode"] = r.choice(["len", "len", "len", "same", "other", "cross", "out", "abs"])
+            if st["mode"] == "len":
+                st["v"] = r.choice([0.0, 0.25, 1.0, pi, 4.0, 5.5, r.uniform(0, 2 * pi - 1e-3)])
+            elif st["mode"] == "cross":
+                st["v"] = r.choice([1e-6, 0.5, 3.0])
+            elif st["mode"] == "out":
+                st["v"] = r.choice([2 * pi + 1e-6, 7, 7.5, 100.0])
+            elif st["mode"] == "abs":
+                st["v"] = r.choice([-2 * pi, 2 * pi, -pi, pi, 0.0, 0, -6, 6, 3, -3, enc_np("f64", 1.5), enc_np("i64", -1)])
+        elif op == "contains":
+            st["thetas"] = [r.choice([r.uniform(-7, 7), r.randint(-7, 7), r.uniform(-7, 7) + 2 * pi * r.choice([-3, 5, 100])]) for _ in range(5)]
+            st["rel"] = [r.choice([-0.01, 0.0, 0.01]) for _ in range(2)]         # next to the current start / end
+        elif op == "containsI":
+            st["frac"] = [r.choice([0.0, 0.25, 0.5]), r.choice([0.5, 0.75, 1.0, 1.1])]   # J = I's sub-arc [f0, f1] (f1 > 1: sticks out)
+            st["turn"] = r.choice([0, 0, 1, -1])
+        elif op in ("add", "sub"):
+            st["x"] = r.choice([0.0, 1.0, -1.0, pi, -2 * pi, 3.5, r.uniform(-6, 6), 1, -2, 40.0])
+        elif op == "copy":
+            st["how"] = r.choice(COPIES)
+        elif op == "noise":
+            st["what"] = r.choice(NOISE)
+        steps.append(st)
+    return {"kind": "aprog", "s": start, "e": start + length, "steps": steps}
+
+
+def run_aprog(ctx, raw):
+    from commonroad.common.util import AngleInterval
+    ctx.case(raw)
+    ctx.tag("aprog/case")
+    tau = _tau()
+    T = frac(tau)
+    band = BAND
+    eps = AngleInterval._TOLERANCE if hasattr(AngleInterval, "_TOLERANCE") else 0.0
+    s, e = val(raw["s"]), val(raw["e"])
+    if abs(frac(e) - frac(s) - T) < band:
+        return
+    r0 = call(AngleInterval, s, e)
+    if r0[0] != "ok":
+        ctx.fail(f"C16/AngleInterval.__init__/raises-{r0[1]}", f"AngleInterval({s!r},{e!r}) raised {r0[2]}", raw)
+        return
+    cur = r0[1]
+    A, B = frac(cur.start), frac(cur.end)            # the construction itself is judged by the `angle` stream
+    head = f"a history on AngleInterval({s!r},{e!r})"
+    olds = []
+    only_setters, msteps, mimpl, a0 = True, [], [], (A, B)
+    nset = 0
+    prev_failed = False
+    for k, st in enumerate(raw["steps"]):
+        op = st["op"]
+        desc = f"step {k} ({op}) of {head}, object [{float(A)},{float(B)}]"
+        failed_now = False
+        if op == "set":
+            which, mode = st["which"], st["mode"]
+            lo_f, hi_f = cur.start, cur.end
+            sv = val(st.get("v"))
+            if mode == "len":
+                v = float(hi_f) - sv if which == "start" else float(lo_f) + sv
+            elif mode == "same":
+                v = lo_f if which == "start" else hi_f
+            elif mode == "other":
+                v = hi_f if which == "start" else lo_f          # zero length: the same object's other bound handed over
+            elif mode == "cross":
+                v = float(hi_f) + sv if which == "start" else float(lo_f) - sv
+            elif mode == "out":
+                v = -sv if which == "start" else sv
+            else:
+                v = sv
+            V = frac(v)
+            if abs(abs(V) - T) < band and abs(V) != T:
+                continue                                        # within round-off of +-2pi: validity not determined
+            nA, nB = (V, B) if which == "start" else (A, V)
+            want_ok = -T <= V <= T and nA <= nB
+            if want_ok and nB - nA >= T - band:
+                continue                                        # would leave the property's quantifier (length < 2pi)
+            r5 = call(setattr, cur, which, v)
+            nset += 1
+            ctx.tag("aprog/setter-ok" if want_ok else "aprog/setter-rejected")
+            if nset >= 2:
+                ctx.tag("aprog/several-setters")
+            if prev_failed:
+                ctx.tag("aprog/op-after-failed-op")
+            if which == "start":
+                ctx.tag("aprog/start-setter")
+            impl = {"ok": [rat(cur.start), rat(cur.end)]} if r5[0] == "ok" else {"err": r5[1]}
+            if ctx.driver is not None:
+                model = ctx.driver.ask("C16", "a_set_" + which, {"tau": rat(tau), "a": rat(A), "b": rat(B), "x": rat(v)})
+                ctx.compare(raw, impl, model, f"AngleInterval.{which} setter vs CR.Iv.set{which.capitalize()}Angle")
+            msteps.append({"op": "set_" + which, "x": rat(v)})
+            mimpl.append(impl)
+            if want_ok and r5[0] != "ok":
+                ctx.fail(f"C16/history/AngleInterval.{which}-setter/raises-{r5[1]}", f"{desc}: {which} = {v!r} raised {r5[2]}", raw)
+                return
+            if not want_ok and r5[0] == "ok":
+                ctx.fail(f"C16/history/AngleInterval.{which}-setter/not-rejected", f"{desc}: {which} = {v!r} (outside [-2pi,2pi] or crossing) accepted", raw)
+                return
+            if want_ok:
+                A, B = nA, nB
+            failed_now = not want_ok
+        elif op == "contains":
+            ths = list(st["thetas"]) + [float(cur.start) + st["rel"][0], float(cur.end) + st["rel"][1]]
+            impl, keep = member_checks(ctx, raw, head + f" at step {k}", cur, ths, A, B, "contains-in-history", T, band)
+            ctx.tag("aprog/query")
+            if keep and ctx.driver is not None:
+                model = ctx.driver.ask("C16", "a_contains", {"tau": rat(tau), "eps": rat(eps), "a": rat(cur.start), "b": rat(cur.end),
+                                                             "thetas": [rat(t) for t in keep]})
+                ctx.compare(raw, impl, model, "AngleInterval.contains inside a history vs CR.Iv.containsAngle")
+            if ctx.failures and ctx.failures[-1].case is not raw and ctx.failures[-1].key.endswith("contains-in-history/wrong-membership"):
+                ctx.failures[-1].case = raw                      # the failing angle alone does not replay a history
+                return
+        elif op == "containsI":
+            ln = float(cur.end) - float(cur.start)
+            c = float(cur.start) + st["frac"][0] * ln + st["turn"] * tau
+            d = float(cur.start) + st["frac"][1] * ln + st["turn"] * tau
+            rj = call(AngleInterval, c, d)
+            if rj[0] == "ok":
+                ctx.tag("aprog/query")
+                containsI_check(ctx, raw, cur, rj[1], T, band, eps, tau, label="contains(interval)-in-history")
+        elif op in ("add", "sub"):
+            only_setters = False
+            x = val(st["x"])
+            r4 = call((lambda: cur + x) if op == "add" else (lambda: cur - x))
+            if r4[0] != "ok":
+                ctx.fail(f"C16/history/AngleInterval.{op}/raises-{r4[1]}", f"{desc} {op} {x!r} raised {r4[2]}", raw)
+                return
+            sh = r4[1]
+            sgn = 1 if op == "add" else -1
+            if ctx.driver is not None:
+                model = ctx.driver.ask("C16", "a_" + op, {"tau": rat(tau), "a": rat(cur.start), "b": rat(cur.end), "x": rat(x)})
+                cmp_norm(ctx, raw, (sh.start, sh.end), model, (A + sgn * frac(x), B + sgn * frac(x)), T, band, f"AngleInterval {op} in a history vs CR.Iv")
+            nA, nB = frac(sh.start), frac(sh.end)
+            kk = round((nA - (A + sgn * frac(x))) / T)
+            if not (type(sh) is AngleInterval and abs(nA - (A + sgn * frac(x)) - kk * T) <= band and abs((nB - nA) - (B - A)) <= band
+                    and -T <= nA <= nB <= T):
+                ctx.fail(f"C16/history/AngleInterval.{op}/wrong-set", f"{desc} {op} {x!r} -> [{sh.start},{sh.end}]: not the image set in [-2pi,2pi]", raw)
+                return
+            ctx.tag("aprog/chain")
+            olds.append((cur, (A, B), f"the operand of {op} at step {k}"))
+            cur, A, B = sh, nA, nB
+        elif op == "copy":
+            only_setters = only_setters and True
+            rc = call(_copy_of, cur, st["how"])
+            if rc[0] != "ok":
+                ctx.fail(f"C16/history/AngleInterval.copy/raises-{rc[1]}", f"{desc}: {st['how']} raised {rc[2]}", raw)
+                return
+            ctx.tag("aprog/copy")
+            olds.append((cur, (A, B), f"the object a {st['how']} was taken from at step {k}"))
+            cur = rc[1]
+            if type(cur) is not AngleInterval or (frac(cur.start), frac(cur.end)) != (A, B):
+                ctx.fail("C16/history/AngleInterval.copy/wrong-set", f"{desc}: the {st['how']} is [{cur.start},{cur.end}]", raw)
+                return
+        elif op == "noise":
+            _noise(cur, st["what"])
+        prev_failed = failed_now
+        if (frac(cur.start), frac(cur.end)) != (A, B):
+            ctx.fail(f"C16/history/AngleInterval.{op}/object-changed", f"{desc}: the object is now [{cur.start},{cur.end}], "
+                     f"expected [{float(A)},{float(B)}]", raw)
+            return
+    for o, (ea, eb), what in olds:
+        if (frac(o.start), frac(o.end)) != (ea, eb):
+            ctx.fail("C16/history/AngleInterval/earlier-object-changed", f"{what} was [{float(ea)},{float(eb)}] and is now [{o.start},{o.end}]", raw)
+            return
+    if only_setters and msteps and ctx.driver is not None:
+        ctx.tag("aprog/model-trace")
+        model = ctx.driver.ask("C16", "a_prog", {"tau": rat(tau), "a": rat(a0[0]), "b": rat(a0[1]), "steps": msteps})
+        ctx.compare(raw, {"trace": mimpl, "final": [rat(cur.start), rat(cur.end)]}, model, "setter history on an AngleInterval vs CR.Iv.runOpsA / finalOpsA")
+
+
+# ------------------------------------------------------------------------------------------------ the normalisation functions
+
+def gen_norm(ctx):
+    r = ctx.rng
+    tau = _tau()
+    k = r.choice([0, 1, -1, 2, -2, 3, -5, 17, -64, 300, -450])
+    x = r.choice([k * tau, k * tau + r.choice([1e-7, -1e-7, 0.5, -0.5]), r.uniform(-7, 7) + k * tau, r.randint(-40, 40), float(r.randint(-2000, 2000)),
+                  tau, -tau, 0.0, -0.0])
+    if r.random() < 0.5:
+        return {"kind": "norm", "op": "mvo", "x": x}
+    return {"kind": "norm", "op": "mvoi", "x": x, "len": r.choice([0.0, 1e-7, 1.0, math.pi, 6.0, tau - 1e-6, 1, 6])}
+
+
+def run_norm(ctx, raw):
+    """make_valid_orientation (tied, not part of the property sentence: correspondence only) and
+    make_valid_orientation_interval (the constructor's normalisation: same set, inside [-2pi, 2pi])."""
+    from commonroad.common.util import make_valid_orientation, make_valid_orientation_interval
+    ctx.case(raw)
+    tau = _tau()
+    T = frac(tau)
+    x = val(raw["x"])
+    band = BAND + abs(frac(x)) * abs(frac(x)) * Fraction(1, 10 ** 16)
+    if raw["op"] == "mvo":
+        ctx.tag("norm/make_valid_orientation")
+        r = call(make_valid_orientation, x)
+        if r[0] != "ok":
+            ctx.compare(raw, {"err": r[1]}, {"ok": "number"}, "make_valid_orientation raised")
+            return
+        model = ctx.driver.ask("C16", "make_valid", {"tau": rat(tau), "x": rat(x)})
+        cmp_norm(ctx, raw, (r[1], r[1]), {"ok": [model["ok"], model["ok"]]}, (x,), T, band, "make_valid_orientation vs CR.Iv.makeValid")
+        return
+    ctx.tag("norm/make_valid_orientation_interval")
+    e = x + raw["len"]
+    if abs(frac(x)) > 10 * T:
+        ctx.tag("norm/many-turns")
+    r = call(make_valid_orientation_interval, x, e)
+    if r[0] != "ok":
+        ctx.fail(f"C16/make_valid_orientation_interval/raises-{r[1]}", f"make_valid_orientation_interval({x!r},{e!r}) raised {r[2]}", raw)
+        return
+    ns, ne = r[1]
+    model = ctx.driver.ask("C16", "make_valid_interval", {"tau": rat(tau), "s": rat(x), "e": rat(e)})
+    cmp_norm(ctx, raw, (ns, ne), model, (x, e), T, band, "make_valid_orientation_interval vs CR.Iv.makeValidInterval")
+    k = round((frac(ns) - frac(x)) / T)
+    if not (abs(frac(ns) - frac(x) - k * T) <= band and abs((frac(ne) - frac(ns)) - (frac(e) - frac(x))) <= band
+            and -T <= frac(ns) and frac(ne) <= T):
+        ctx.fail("C16/make_valid_orientation_interval/wrong-normalisation",
+                 f"make_valid_orientation_interval({x!r},{e!r}) = ({ns},{ne}): not the same angles inside [-2pi,2pi]", raw)
 
 
 def run_case(ctx, case):
     if case["kind"] in ("plain", "plainf"):
         run_plain(ctx, case)
+    elif case["kind"] == "prog":
+        run_prog(ctx, case)
+    elif case["kind"] == "aprog":
+        run_aprog(ctx, case)
+    elif case["kind"] == "norm":
+        run_norm(ctx, case)
     else:
         run_angle(ctx, case)
 
 
 def run(ctx):
+    problems = check_dimensions()
+    ctx.tag("dimensions/checked")
+    _run_cases(ctx)
+    if problems and not ctx.failures:
+        # code growth the generators do not know about: never a silent pass (a concrete failure found anyway takes precedence)
+        raise InfraError("C16 dimension table vs commonroad.common.util: " + "; ".join(problems))
+
+
+def _run_cases(ctx):
     for p in sorted(glob.glob(os.path.join(CORPUS_DIR, "C16", "*.json"))):
         run_case(ctx, json.load(open(p)))
     for _ in range(ctx.n(2500)):
         run_case(ctx, gen_plain(ctx))
     for _ in range(ctx.n(800)):
         run_case(ctx, gen_plain_float(ctx))
+    for _ in range(ctx.n(900)):
+        run_case(ctx, gen_prog(ctx))
     for _ in range(ctx.n(2500)):
         run_case(ctx, gen_angle(ctx))
+    for _ in range(ctx.n(700)):
+        run_case(ctx, gen_aprog(ctx))
+    for _ in range(ctx.n(300)):
+        run_case(ctx, gen_norm(ctx))
 
 
 search = run
@@ -471,3 +1343,44 @@ search = run
 
 def replay(ctx, case):
     run_case(ctx, case)
+
+
+class _Stub:
+    """Oracle-only context for shrinking (no driver, no bookkeeping)."""
+    driver = None
+
+    def __init__(self):
+        self.failures, self.excluded = [], 0
+
+    def case(self, *a, **k): pass
+    def tag(self, *a): pass
+    def compare(self, *a, **k): return True
+
+    def fail(self, key, what, case, detail=None):
+        from common import Failure
+        self.failures.append(Failure(key, what, case, detail))
+
+
+def shrink(case, key):
+    """Histories: drop steps while the same finding key is still produced."""
+    if case.get("kind") not in ("prog", "aprog"):
+        return case
+
+    def fails(steps):
+        st = _Stub()
+        try:
+            run_case(st, dict(case, steps=steps))
+        except Exception:  # noqa
+            return False
+        return any(f.key == key for f in st.failures)
+    steps = list(case["steps"])
+    if not fails(steps):
+        return case
+    i = 0
+    while i < len(steps):
+        cand = steps[:i] + steps[i + 1:]
+        if fails(cand):
+            steps = cand
+        else:
+            i += 1
+    return dict(case, steps=steps)
